@@ -108,7 +108,7 @@ manifest = {
  "setup_cmd": "./setup.sh",
  "hooks": {
    "guard": "cargo feature `verif_hooks` (crates pavex and pavexc), default off",
-   "enable": "the harness crates under /verif/harness depend on /repo crates by path with features=[\"verif_hooks\"]; pavexc is built with `--features pavexc/verif_hooks`",
+   "enable": "harness/rtprops depends on /repo/runtime/pavex by path with features=[\"verif_hooks\"] (H1, H4), harness/cprops on /repo/compiler/pavexc with features=[\"verif_hooks\"] (H2); the end-to-end engine uses the plain `pavexc` binary built from /repo (no hook needed)",
    "baseline_off_cmd": "cd /repo && cargo nextest run --workspace --no-fail-fast --test-threads 8 --offline || cargo test --workspace --no-fail-fast --offline",
    "source_commits": hook_commits(),
    "add_only": True,
